@@ -610,8 +610,9 @@ func genCluster(seed uint64, tier, variant string) any {
 		// outstanding longer than that are cut off and re-sent): the recovery paths after errConnExpired in cluster.go
 		p.Opt.ConnLifetimeMs = pick(r, 60, 150, 400, 1000)
 		p.Opt.AlwaysPipelining = r.IntN(4) != 0
-		for i, nf := 0, 1+r.IntN(4); i < nf; i++ {
-			p.Faults = append(p.Faults, FaultSpec{Kind: "slow", AtStep: r.IntN(200), NeedInflight: true, Pick: r.IntN(8), DurMs: pick(r, 1100, 1500, 2500)})
+		p.Sched.CutProb = pick(r, 0.3, 0.7, 1.0)
+		for i, nf := 0, 2+r.IntN(6); i < nf; i++ {
+			p.Faults = append(p.Faults, FaultSpec{Kind: "slow", AtStep: r.IntN(250), NeedInflight: true, Pick: r.IntN(8), DurMs: pick(r, 1100, 1500, 2500)})
 		}
 		return p
 	}
